@@ -57,7 +57,9 @@ class Clock:
         self.t = base
 
     def tick(self):
-        self.t += 10
+        # a quarter of a second: changes that follow one another within the
+        # same whole second are ordinary on a busy host
+        self.t += 0.25
         return self.t
 
 
